@@ -2,7 +2,7 @@
 import base64, json, os, re
 from lib import fw
 
-MODULES = ["SunriseVerif.Props.C15", "SunriseVerif.Witness.C15"]
+MODULES = ["SunriseVerif.Props.C15", "SunriseVerif.Witness.C15", "SunriseVerif.Props.ParamGuards", "SunriseVerif.Props.ParamGuardsSwap"]
 
 
 def feats(f):
@@ -42,7 +42,7 @@ def report(ctx, res):
 def run(ctx):
     if not ctx.translate():
         return
-    ok = ctx.prove(MODULES)
+    ok = ctx.prove(MODULES, needs_gen=["KernelsParamsSwap"])
     n = 600 if ctx.thorough() else 20          # thousands of inputs
     res = fw.corr(ctx, "untrusted", n, timeout=1500)
     report(ctx, res)
